@@ -45,6 +45,14 @@ def trial(ra, rb, a_high, mangle=None, chunk=None, rng=None, dial_from="a"):
     A = make_tub(net, "a", pa, mkneg(ra))
     B = make_tub(net, "b", pb_, mkneg(rb))
     assert (A.tubID > B.tubID) == a_high
+    # 'parameters of the Broker created on each side': noted when the Broker is made (switchToBanana), because a Broker whose peer
+    # refuses the decision does not live long enough to be seen in Tub.brokers when the network is quiet
+    created = ([], [])
+    A.brokerClass = recording_broker(A.brokerClass, created[0])
+    B.brokerClass = recording_broker(B.brokerClass, created[1])
+    trial.created = created
+    trial.dialer_is_decider = (dial_from == "a") == a_high
+    trial.a_is_decider = a_high
     src, dst = (A, B) if dial_from == "a" else (B, A)
     furl = dst.registerReference(T())
     res = []
@@ -125,6 +133,62 @@ def judge(ctx, tag, cfg, pa, pb, res, want_success=None):
     return bad is None
 
 
+DECIDER_SWITCHED = "oracle/decider-switched-before-refusal"
+
+
+def swap_hash(link, side, d):
+    """the decision's table hash rewritten in flight: two implementations whose table >= 1 differs in content"""
+    return re.sub(rb"(initial-vocab-table-index: \d+ )([0-9a-f]{4})", lambda m: m.group(1) + b"ffff", d)
+
+
+def judge_created(ctx, tag, cfg, pa, pb, res, exp):
+    """the property on the Brokers each end CREATED during the attempt (trial.created), not only on what is left in Tub.brokers when
+    the network is quiet.  exp = (version, table) both must use, or None when the two must abandon.  With tamper == 'hash' the two
+    ends hold different tables 1 (the decision's hash is rewritten in flight): whenever the table decided on is >= 1 its contents do
+    not match, so NEITHER end may switch and both must abandon with a negotiation error."""
+    ca, cb = [list(x) for x in trial.created]
+    a_high = cfg["a_high"]
+    cd, cn = (ca, cb) if a_high else (cb, ca)          # created by the decider / by the non-decider
+    mismatch = cfg.get("tamper") == "hash" and exp is not None and exp[1] >= 1
+    rp = dict(config=cfg, A=pa, B=pb, created=dict(decider=cd, non_decider=cn), result=repr(res),
+              dialer="decider" if trial.dialer_is_decider else "non-decider")
+    if not mismatch:
+        okj = judge(ctx, tag, cfg, pa, pb, res, exp if exp else False)
+        want = [exp] if exp else []
+        if okj and (ca != want or cb != want):
+            ctx.fail("oracle/%s" % tag, "the Brokers created during the attempt are not the ones the property allows: expected %r on both "
+                     "sides, the decider created %r, the non-decider %r; configuration %r" % (want, cd, cn, cfg), replay=rp)
+            return False
+        return okj
+    # the non-decider must refuse the decision
+    if cn or pa or pb or res == [42]:
+        ctx.fail("oracle/%s" % tag, "the two ends hold different contents for table %d, yet the decision was not refused: the non-decider "
+                 "created %r, the decider %r (left afterwards: %r / %r, call: %r); configuration %r" % (exp[1], cn, cd, pa, pb, res, cfg),
+                 replay=rp)
+        return False
+    if len(res) != 1:
+        ctx.fail("oracle/%s" % tag, "getReference/callRemote fired %d times; configuration %r" % (len(res), cfg), replay=rp)
+        return False
+    caller_ok = isinstance(res[0], type) and issubclass(res[0], NEGOTIATION_ERRORS)
+    if cd:
+        # 'or both abandon the connection with a negotiation error' fails for the decider: it has switched (Broker created and
+        # attached) before the non-decider refused; what it sees afterwards is a lost connection
+        ctx.fail(DECIDER_SWITCHED, "the non-decider refused the decision (table %d differs) and abandoned with a negotiation error, but the "
+                 "decider had already switched to the RPC protocol: it created a Broker with (version, table) %r, which then lost its "
+                 "connection; the %s dialled and its getReference caller got %s; configuration %r"
+                 % (exp[1], cd, rp["dialer"], getattr(res[0], "__name__", res[0]), cfg), replay=rp)
+        if not trial.dialer_is_decider and not caller_ok:
+            ctx.fail("oracle/%s" % tag, "the non-decider dialled and refused the decision, but its caller did not get a negotiation error: %r; "
+                     "configuration %r" % (res, cfg), replay=rp)
+            return False
+        return True
+    if not caller_ok:
+        ctx.fail("oracle/%s" % tag, "the attempt failed, but not with a negotiation error: the caller got %r; configuration %r" % (res, cfg),
+                 replay=rp)
+        return False
+    return True
+
+
 def sweep(ctx):
     cases = []
     rs = ranges()
@@ -135,10 +199,11 @@ def sweep(ctx):
                     cfg = dict(ra=ra, rb=rb, a_high=a_high, tamper=None)
                     pa, pb, res = trial(ra, rb, a_high, dial_from="a" if (ra[0] + rb[1] + a_high) % 2 else "b")
                     exp = expected(ra, rb)
-                    judge(ctx, "sweep", cfg, pa, pb, res, exp if exp else False)
+                    judge_created(ctx, "sweep", cfg, pa, pb, res, exp)
                     ctx.case(["sweep", ra, rb, a_high], nontrivial=len(res) == 1)
                     ctx.hist("sweep_outcome", "banana" if pa else "failed")
-                    cfg["obs"] = (pa[0] if len(pa) == 1 else None, pb[0] if len(pb) == 1 else None)
+                    cfg["obs"] = observed(pa, pb)
+                    cfg["caller"] = caller_code(res)
                     cfg["phases"] = list(trial.last_phases)
                     cases.append(cfg)
         # version skew: one side also offers a version (4) that the other does not implement; the common version is still chosen,
@@ -152,26 +217,78 @@ def sweep(ctx):
                             cfg = dict(ra=xa, rb=xb, a_high=a_high, tamper=None, dial=dial)
                             pa, pb, res = trial(xa, xb, a_high, dial_from=dial)
                             exp = expected(xa, xb)
-                            judge(ctx, "version-skew", cfg, pa, pb, res, exp if exp else False)
+                            judge_created(ctx, "version-skew", cfg, pa, pb, res, exp)
                             ctx.case(["skew", xa, xb, a_high, dial], nontrivial=len(res) == 1)
                             ctx.hist("skew_outcome", "banana" if pa else "failed")
-        # decision rewritten in flight so that the master's table hash differs from the slave's
-        def swap_hash(link, side, d):
-            return re.sub(rb"(initial-vocab-table-index: \d+ )([0-9a-f]{4})", lambda m: m.group(1) + b"ffff", d)
-        for ra in rs[::3]:
-            for rb in rs[::2]:
+        # decision rewritten in flight so that the master's table hash differs from the slave's (swap_hash)
+        # the fixed witness of C13_agreement_two_way_refuted / known finding oracle/decider-switched-before-refusal, dialled by the decider
+        cfg = dict(ra=(3, 3, 1, 1), rb=(3, 3, 1, 1), a_high=True, tamper="hash", witness=True)
+        pa, pb, res = trial(cfg["ra"], cfg["rb"], True, mangle=swap_hash, dial_from="a")
+        judge_created(ctx, "hash-mismatch", cfg, pa, pb, res, expected(cfg["ra"], cfg["rb"]))
+        ctx.case(["hash-witness"], nontrivial=True)
+        cfg["obs"] = observed(pa, pb)
+        cfg["caller"] = caller_code(res)
+        cfg["phases"] = list(trial.last_phases)
+        cases.append(cfg)
+        # ra ranges over the configurations that offer table 1 (the only table whose hash is compared: table 0 is empty); rb over every
+        # other one of all configurations, so that the table decided on is 1 (hash compared and found different), 0 (nothing to
+        # compare: must connect) or none (ranges disjoint); both tub-id orders; dialled by the decider and by the non-decider
+        compared = 0
+        hs = [r for r in rs if r[3] >= 1]
+        for i, ra in enumerate(hs[::2]):
+            for j, rb in enumerate(rs[(i % 2)::2]):
                 for a_high in (False, True):
                     cfg = dict(ra=ra, rb=rb, a_high=a_high, tamper="hash")
-                    pa, pb, res = trial(ra, rb, a_high, mangle=swap_hash)
-                    judge(ctx, "hash-mismatch", cfg, pa, pb, res)
+                    pa, pb, res = trial(ra, rb, a_high, mangle=swap_hash, dial_from="a" if (i + j + a_high) % 2 else "b")
+                    exp = expected(ra, rb)
+                    judge_created(ctx, "hash-mismatch", cfg, pa, pb, res, exp)
                     ctx.case(["hash", ra, rb, a_high], nontrivial=len(res) == 1)
+                    kind = "no-decision" if not exp else "table-0-nothing-to-compare" if exp[1] < 1 else \
+                        "hash-compared/%s-dialled" % ("decider" if trial.dialer_is_decider else "non-decider")
+                    compared += bool(exp and exp[1] >= 1)
+                    ctx.hist("hash_mismatch_kind", kind)
                     ctx.hist("hash_mismatch_outcome", "banana" if pa else "failed")
-                    cfg["obs"] = (pa[0] if len(pa) == 1 else None, pb[0] if len(pb) == 1 else None)
+                    cfg["obs"] = observed(pa, pb)
+                    cfg["caller"] = caller_code(res)
                     cfg["phases"] = list(trial.last_phases)
                     cases.append(cfg)
+        ctx.extra["hash_mismatch_configurations_that_compare_a_hash"] = compared
+        if compared < 20:
+            ctx.fail("harness/hash-sweep-vacuous", "only %d configurations of the hash-mismatch sweep reach the comparison of the table hash"
+                     % compared, has_input=False)
     ctx.sample(dict(kind="sweep", case={k: v for k, v in cases[5].items()}))
     ctx.sample(dict(kind="hash-mismatch", case={k: v for k, v in cases[-1].items()}))
     return cases
+
+
+def observed(pa, pb):
+    """what each end came to, for the correspondence with Negotiate.negotiate: ("banana", v, t) -- a Broker created and still
+    connected; ("lost", v, t) -- a Broker created, connection lost afterwards; ("failed",) -- no Broker created"""
+    out = []
+    for made, left in zip(trial.created, (pa, pb)):
+        if len(made) > 1 or len(left) > 1:
+            out.append(("several", list(made), list(left)))
+        elif not made:
+            out.append(("failed",) if not left else ("uncreated-broker", list(left)))
+        elif left:
+            out.append(("banana",) + tuple(made[0]) if list(left) == list(made) else ("changed", list(made), list(left)))
+        else:
+            out.append(("lost",) + tuple(made[0]))
+    return tuple(out)
+
+
+def caller_code(res):
+    """(is the dialer the end called A?, what its getReference(...).callRemote caller got): 0 = the call returned, 1 = NegotiationError,
+    2 = RemoteNegotiationError, 3 = the connection of an established Broker was lost, 8 = anything else"""
+    a_dialled = trial.dialer_is_decider == trial.a_is_decider
+    if len(res) != 1:
+        return (a_dialled, 8)
+    r = res[0]
+    if r == 42:
+        return (a_dialled, 0)
+    name = getattr(r, "__name__", "")
+    return (a_dialled, {"NegotiationError": 1, "RemoteNegotiationError": 2, "DeadReferenceError": 3, "ConnectionLost": 3,
+                        "ConnectionDone": 3}.get(name, 8))
 
 
 def chunked(ctx):
